@@ -35,7 +35,8 @@ def standins(tier, seed):
     if tier == 'quick':
         cfgs = [dict(p=1, exhaustive=True, max_cases=200), dict(p=2, q=0, r=1, grade_blocks=True, random=4),
                 dict(p=1, q=1, r=0, exhaustive=True, max_cases=150), dict(p=3, grade_blocks=True, random=3),
-                dict(p=4, grade_blocks=True, random=2), dict(p=3, q=0, r=1, grade_blocks=True, random=2), dict(p=5, random=3, wide=True)]
+                dict(p=4, grade_blocks=True, random=2), dict(p=3, q=0, r=1, grade_blocks=True, random=2), dict(p=5, random=3, wide=True),
+                dict(p=2, start_index=10, exhaustive=True, max_cases=150), dict(signature=[1, -1, 1], start_index=9, grade_blocks=True, random=3)]      # blade names with hex letters: symbols aa, ab, aab, ..
     else:
         cfgs = [dict(p=1, exhaustive=True), dict(q=1, exhaustive=True), dict(r=1, exhaustive=True)] + \
             [dict(p=p, q=q, r=2 - p - q, exhaustive=True, max_cases=1500) for p in range(3) for q in range(3 - p)] + \
